@@ -31,5 +31,13 @@ for f in ("patch.diff", "demo.rs", "README.md", "patch_hooked.diff"):
 meta = {"property": prop, "variant": var, "confirmed": bool(ok), "confirmation": conf, "demo_path": demo, "demo_cmd": "cargo test --offline " + " ".join(cmd),
         "base_commit_for_confirmation": "3e8c7e9 (HEAD before the cfg-guarded hook commits; hooks are off in a normal build)",
         "checks_run_quick": results, "reported": whats[:6] if ok else []}
+if os.path.exists(f"{dst}/meta.json"):
+    old = json.load(open(f"{dst}/meta.json"))
+    for k in ("summary", "breaks", "needs", "what_i_ran"):
+        if k in old:
+            meta[k] = old[k]
+    prev = old.get("checks_run_quick", {})
+    prev.update(meta["checks_run_quick"])
+    meta["checks_run_quick"] = prev
 json.dump(meta, open(f"{dst}/meta.json", "w"), indent=1)
 print(json.dumps(meta["checks_run_quick"]))
